@@ -303,6 +303,25 @@ def check_decimal_discipline(repo, rep):
     rep.floor(rid, 10)
 
 
+def check_update_qty_decimal(repo, rep, rid):
+    """the position size is updated with the same exact-decimal helpers the closing test `sum_floats(self.qty, qty) == 0`
+    relies on: a binary-float `+=` / `-` leaves dust (0.1 + 0.2) and the exact-size exit no longer closes the position"""
+    upd = repo.func(POSITION, "Position._update_qty")
+    n = 0
+    for node in ast.walk(upd):
+        if isinstance(node, ast.Assign) and any(norm(t) == "self.qty" for t in node.targets):
+            v = node.value
+            n += 1
+            if isinstance(v, ast.BinOp) and isinstance(v.op, (ast.Add, ast.Sub)):
+                rep.violation(rid, f"_update_qty|{norm(v)[:40]}", f"Position._update_qty: size updated with binary float arithmetic: {norm(node)} (the close test uses exact decimal sums)")
+            rep.instance(rid, f"_update_qty|{norm(node)[:60]}")
+        if isinstance(node, ast.AugAssign) and norm(node.target) == "self.qty":
+            n += 1
+            rep.violation(rid, "_update_qty|augassign", f"Position._update_qty: size updated with binary float arithmetic: {norm(node)} (the close test uses exact decimal sums)")
+    if n < 4:
+        raise AnalysisError("Position._update_qty: size stores not found")
+
+
 def _is_ledger(t) -> bool:
     if isinstance(t, ast.Subscript):
         b = norm(t.value)
